@@ -120,6 +120,13 @@ theorem src_display_format_args_with {V : Type} (fromB : V → V) (fmtV : V → 
         (.val (.ctor1 cOk .unit), fmtV (fromB x) ++ [0x20] ++ label u style (isOne (fromB x))) :=
   Uom.BodyEq.FmtGlue.display_format_args_with fromB isOne u fmtV un style x
 
+/-- "the return value of `format_args` can be reused to format several quantities": `Clone for Arguments` returns
+    the same arguments (style included) -/
+theorem src_arguments_clone (style : Style) :
+    run (Uom.BodyEq.FmtGlue.envGlue (V := Unit) id (fun _ => none) (fun _ => false) ⟨[], [], []⟩)
+        system_Clone_for_Arguments_clone [.host (.args style)] = (.val (.host (.args style)), []) :=
+  Uom.BodyEq.FmtGlue.arguments_clone_eq style
+
 end SourceTieRx
 
 end Uom.C11
